@@ -1385,8 +1385,20 @@ Qed.
 Definition tdata_value (sch : schema) (nm : Z -> string) (d : tdata Eval.gstatus) : value :=
   data_of sch nm (td_cluster d) (td_group d) (td_id d) (td_extras d) (td_result d).
 
+(* what the evaluator can send to the notifier: the problems-only view of an evaluation, or the NOTFOUND reply for a
+   group it does not know (which the notifier drops before any template runs: coordinator.go:400-404, Notifier.v
+   live_resp / on_response - included here so that nothing depends on that) *)
 Definition evaluator_reply (g : Eval.gstatus) : Prop :=
-  exists ts minimum allowed now g0, Eval.eval_group ts minimum allowed now = Eval.Ok g0 /\ g = Eval.filter_view g0.
+  (exists ts minimum allowed now g0, Eval.eval_group ts minimum allowed now = Eval.Ok g0 /\ g = Eval.filter_view g0)
+  \/ g = notfound_reply.
+
+Lemma evaluator_reply_ends : forall g, evaluator_reply g ->
+  Forall (fun s => Eval.ps_start s <> None /\ Eval.ps_end s <> None) (Eval.gs_partitions g).
+Proof.
+  intros g [(ts & mi & al & now & g0 & Hev & ->)| ->].
+  - eapply listed_partitions_have_ends; eauto.
+  - constructor.
+Qed.
 
 (* every notification of a sequence handed to a configured module renders, on data that carries the configured
    extras and that notification's incident - however many notifications the module has sent before *)
@@ -1403,7 +1415,140 @@ Proof.
   intros sch tbl cfg He Hall Hnd m good Hin Hg Hf extras sent l nm k n d Hl Hn Hd.
   rewrite module_data_offers_configured in Hd. rewrite nth_error_map, Hn in Hd. simpl in Hd. inversion Hd; subst d.
   split; [reflexivity|].
-  rewrite Forall_forall in Hl. destruct (Hl n (nth_error_In _ _ Hn)) as (ts & mi & al & now & g0 & Hev & Hg0).
-  unfold tdata_value, notify_data. simpl. rewrite Hg0.
-  exact (configured_modules_render sch tbl cfg He Hall Hnd m good Hin Hg Hf ts mi al now g0 Hev nm _ _ _ _).
+  rewrite Forall_forall in Hl. pose proof (evaluator_reply_ends _ (Hl n (nth_error_In _ _ Hn))) as Hends.
+  unfold tdata_value, notify_data. simpl.
+  rewrite (module_renders_file sch tbl cfg m good _ Hnd Hin Hg).
+  unfold lookup_tmpl. destruct (assoc (mc_file m good) tbl) as [t|] eqn:Ea; [|contradiction].
+  rewrite forallb_forall in Hall. pose proof (Hall _ (assoc_In _ _ _ Ea)) as Ht. simpl in Ht.
+  eapply renders_with_ends; eauto.
+Qed.
+
+(* ---- jsonencoder never fails on what the evaluator produces ---------------------------------------- *)
+(* templateJSONEncoder discards json.Marshal's error and returns "" (helpers.go:64-67), which in a value position is
+   malformed JSON without any render error; the model does the same (Tmpl.apply_fn FJson: a value containing a non-finite
+   float gives the empty string).  For the Go types of the template data json.Marshal can fail only on a NaN / infinite
+   float (all map keys are strings, there are no channels, functions or cycles, the MarshalJSON methods of StatusConstant
+   and Lag marshal a string / a number): what follows shows that no value the templates can reach in the data built from
+   an evaluator reply (within the 2^24 bounds) contains one. *)
+
+Definition kfinite (k : kval) : bool :=
+  match k with KFloat b => b | KVal v => negb (contains_nonfinite v) | _ => true end.
+
+Lemma existsb_false : forall {A} (f : A -> bool) l, (forall x, In x l -> f x = false) -> existsb f l = false.
+Proof.
+  induction l as [|a r IH]; simpl; intros H; [reflexivity|].
+  rewrite (H a (or_introl eq_refl)), IH; auto.
+Qed.
+
+Lemma zero_finite : forall sch t z, zero_of sch t = Some z -> contains_nonfinite z = false.
+Proof.
+  intros sch t z H. destruct t; simpl in H; try discriminate; try (inversion H; subst; reflexivity).
+  destruct (is_named_int sch n); [|discriminate]. inversion H; reflexivity.
+Qed.
+
+Lemma build_struct_finite : forall sch tn known,
+  forallb (fun p => kfinite (snd p)) known = true -> contains_nonfinite (build_struct sch tn known) = false.
+Proof.
+  intros sch tn known H. unfold build_struct. simpl. apply existsb_false. intros [n v] Hin.
+  apply in_map_iff in Hin. destruct Hin as [[n0 t] [Heq _]]. unfold build_field in Heq. simpl in Heq.
+  inversion Heq; subst n v. clear Heq. simpl.
+  destruct (assoc n0 known) as [k|] eqn:Ea.
+  - assert (Hk : kfinite k = true).
+    { rewrite forallb_forall in H. exact (H _ (assoc_In _ _ _ Ea)). }
+    destruct (kbuild sch k t) as [v|] eqn:Eb; [|reflexivity].
+    destruct k; simpl in Eb, Hk.
+    + destruct (ty_eqb t TStr); inversion Eb; subst; reflexivity.
+    + destruct (is_int_ty sch t); inversion Eb; subst; reflexivity.
+    + destruct (ty_eqb t TFloat); inversion Eb; subst v. simpl. rewrite Hk. reflexivity.
+    + destruct (ty_eqb (type_of v0) t); inversion Eb; subst. apply negb_true_iff in Hk. exact Hk.
+  - destruct (zero_of sch t) as [z|] eqn:Ez; [|reflexivity]. eapply zero_finite; eauto.
+Qed.
+
+Lemma lag_val_finite : forall sch l, contains_nonfinite (lag_val sch l) = false.
+Proof. intros sch [z|]; [|reflexivity]. simpl. apply build_struct_finite. reflexivity. Qed.
+
+Lemma offset_val_finite : forall sch o, contains_nonfinite (offset_val sch o) = false.
+Proof.
+  intros sch [c|]; [|reflexivity]. simpl. apply build_struct_finite. simpl. rewrite lag_val_finite. reflexivity.
+Qed.
+
+Lemma part_val_finite : forall sch nm p, f32_finite (Eval.ps_complete p) = true ->
+  contains_nonfinite (part_val sch nm p) = false.
+Proof.
+  intros sch nm p H. unfold part_val. simpl. apply build_struct_finite. simpl.
+  rewrite !offset_val_finite, H. reflexivity.
+Qed.
+
+Lemma data_finite : forall sch nm cl gr id ex g,
+  f32_finite (Eval.gs_complete g) = true ->
+  Forall (fun s => f32_finite (Eval.ps_complete s) = true) (Eval.gs_partitions g) ->
+  (forall m, Eval.gs_maxlag g = Some m -> f32_finite (Eval.ps_complete m) = true) ->
+  contains_nonfinite (data_of sch nm cl gr id ex g) = false.
+Proof.
+  intros sch nm cl gr id ex g Hc Hp Hm. unfold data_of. apply build_struct_finite. simpl.
+  assert (He : existsb (fun p : string * value => contains_nonfinite (snd p))
+                 (map (fun kv : string * string => (fst kv, VStr (snd kv))) ex) = false).
+  { apply existsb_false. intros x Hx. apply in_map_iff in Hx. destruct Hx as [kv [<- _]]. reflexivity. }
+  rewrite He. simpl. rewrite andb_true_r. apply negb_true_iff.
+  unfold group_val. apply build_struct_finite. simpl. rewrite Hc. simpl.
+  assert (Hl : existsb contains_nonfinite (map (part_val sch nm) (Eval.gs_partitions g)) = false).
+  { apply existsb_false. intros x Hx. apply in_map_iff in Hx. destruct Hx as [p [<- Hin]].
+    apply part_val_finite. rewrite Forall_forall in Hp. auto. }
+  rewrite Hl. simpl. rewrite andb_true_r. apply negb_true_iff.
+  destruct (Eval.gs_maxlag g) as [m|]; [apply part_val_finite; auto|reflexivity].
+Qed.
+
+Lemma indirect_finite : forall v u, indirect v = Some u -> contains_nonfinite v = false -> contains_nonfinite u = false.
+Proof.
+  induction v; intros u H Hs; simpl in H; try discriminate; try (inversion H; subst; exact Hs).
+  match goal with IH : forall u, _ -> _ -> _ |- _ => eapply IH; eauto end.
+Qed.
+
+Lemma assoc_finite : forall name (fs : list (string * value)) x,
+  assoc name fs = Some x -> existsb (fun p => contains_nonfinite (snd p)) fs = false -> contains_nonfinite x = false.
+Proof.
+  induction fs as [|[k a] r IH]; simpl; intros x Ha H; [discriminate|].
+  apply orb_false_iff in H. destruct H as [H1 H2].
+  destruct (String.eqb name k); [inversion Ha; subst; exact H1|auto].
+Qed.
+
+Lemma field_step_finite : forall sch evargs noargs recv name x,
+  field_step sch evargs noargs recv name = Ok x -> contains_nonfinite recv = false -> contains_nonfinite x = false.
+Proof.
+  unfold field_step. intros sch evargs noargs recv name x H Hs.
+  destruct (indirect recv) as [v|] eqn:Hi; [|discriminate].
+  pose proof (indirect_finite _ _ Hi Hs) as Hv.
+  destruct (match vnamed v with Some tn => method_of sch tn name | None => None end) as [m|].
+  - destruct (m_ptr m); [discriminate|].
+    apply bind_ok in H. destruct H as [vs [_ H]]. unfold method_result in H.
+    destruct (m_results m) as [|[] [|]]; try discriminate.
+    destruct v; try (inversion H; reflexivity). destruct t; try (inversion H; reflexivity).
+    destruct (String.eqb n (sch_status_ty sch) && String.eqb name "String"); inversion H; reflexivity.
+  - destruct v; try discriminate. destruct noargs; [|discriminate].
+    destruct (assoc name fs) as [y|] eqn:Ha; [|discriminate]. inversion H; subst.
+    eapply assoc_finite; eauto.
+Qed.
+
+Lemma chain0_finite : forall sch chain v x,
+  eval_chain0 sch v chain = Ok x -> contains_nonfinite v = false -> contains_nonfinite x = false.
+Proof.
+  induction chain as [|f r IH]; simpl; intros v x H Hs.
+  - inversion H; subst; assumption.
+  - apply bind_ok in H. destruct H as [y [Hy H]]. eapply IH; eauto. eapply field_step_finite; eauto.
+Qed.
+
+(* jsonencoder_total: whatever part of the data a template passes to jsonencoder - for every evaluator reply about a
+   group within the bounds - is marshalable: the helper returns the marshalled text, never the empty string *)
+Theorem jsonencoder_total : forall ts minimum allowed now g,
+  bounded ts -> Eval.eval_group ts minimum allowed now = Eval.Ok g ->
+  forall sch nm cl gr id ex chain v,
+    eval_chain0 sch (data_of sch nm cl gr id ex (Eval.filter_view g)) chain = Ok v ->
+    contains_nonfinite v = false /\ apply_fn sch FJson [v] = Ok (VAbsStr true).
+Proof.
+  intros ts minimum allowed now g Hb Hg sch nm cl gr id ex chain v Hv.
+  destruct (group_finite _ _ _ _ _ Hb Hg) as [Hc [Hp Hm]].
+  assert (Hd : contains_nonfinite (data_of sch nm cl gr id ex (Eval.filter_view g)) = false).
+  { apply data_finite; simpl; auto.
+    apply Forall_forall. intros s Hs. apply filter_In in Hs. rewrite Forall_forall in Hp. apply Hp. tauto. }
+  pose proof (chain0_finite _ _ _ _ Hv Hd) as Hf. split; [exact Hf|]. simpl. rewrite Hf. reflexivity.
 Qed.
